@@ -62,6 +62,18 @@ def run(sel, props, verbose):
     m = json.load(open(MAP))
     jobs = [(n, p) for n in sorted(m) if (not sel or any(s in n for s in sel.split(","))) for p in props]
     ev = tempfile.mkdtemp(prefix="grinevalev.")
+    # run from a snapshot of the engine, rule tables and baseline so that edits made while the (long) run is going do not leak into it
+    global V
+    snap = tempfile.mkdtemp(prefix="grinevalsnap.")
+    for d in ("engine/grinlint", "rules", "baseline", "witness"):
+        shutil.copytree(os.path.join(V, d), os.path.join(snap, d), ignore=shutil.ignore_patterns("__pycache__", "target"))
+    for f in ("check", "known_findings.json", "properties.jsonl"):
+        shutil.copy2(os.path.join(V, f), os.path.join(snap, f))
+    os.symlink(os.path.join(V, ".cache"), os.path.join(snap, ".cache"))
+    os.makedirs(os.path.join(snap, "engine", "mirfacts"), exist_ok=True)
+    os.symlink(os.path.join(V, "engine", "mirfacts", "src"), os.path.join(snap, "engine", "mirfacts", "src"))
+    os.symlink(os.path.join(V, "engine", "mirfacts", "target"), os.path.join(snap, "engine", "mirfacts", "target"))
+    V0, V = V, snap
 
     def one(job):
         n, p = job
@@ -76,6 +88,8 @@ def run(sel, props, verbose):
             else:
                 res.setdefault(n, {})
     shutil.rmtree(ev, ignore_errors=True)
+    V = V0
+    shutil.rmtree(snap, ignore_errors=True)
     nb = nba = ns = nso = nsa = 0
     for n in sorted(res):
         caught = res[n]
